@@ -540,7 +540,7 @@ func (m *sessRunner) step(st *sessStep, h *sessHist) sessOut {
 	modelK := st.K
 	skipModel := false
 	var oids []interface{}
-	viewDump := ""      // the transaction's view right before a commit
+	viewDump := ""       // the transaction's view right before a commit
 	storeFailed := false // the injected failure was hit
 	wasDirty := false
 	preView := m.view(st.Sid)
